@@ -46,15 +46,20 @@ Record variant := mkVariant {
   v_flag_in_writeaof : bool; (* s.aofdirty.Store(true) is inside writeAOF, before the append; false: it is
                                 in handleInputCommand after writeAOF returned, so the writes a Lua script
                                 makes through luaTile38AtomicRW / luaTile38NonAtomic never raise it *)
-  v_detach_store_locked : bool (* the goingLive copy of the pre-write clears the flag before its unlock;
+  v_detach_store_locked : bool; (* the goingLive copy of the pre-write clears the flag before its unlock;
                                 false: that copy unlocks right after flushAOF (explicit s.mu.Unlock())
                                 and clears the flag afterwards *)
+  v_flusher_store : bool     (* every round of backgroundSyncAOF starts with an unconditional
+                                `s.aofdirty.Store(false)` before it takes the lock ("the flush below leaves
+                                the buffer empty"); not the case in tile38, a recognised other order.  The
+                                flusher's F1 is then the store (no lock) and FL the lock; at boot the first
+                                store finds the flag false, so the thread starts at FL *)
 }.
 
 (* tile38 at the pinned commit *)
-Definition v_pinned : variant := mkVariant false false false true true.
+Definition v_pinned : variant := mkVariant false false false true true false.
 (* tile38 with proposed_fixes/C08-prewrite-order.diff applied (what /repo's working tree holds) *)
-Definition v_fixed : variant := mkVariant true true false true true.
+Definition v_fixed : variant := mkVariant true true false true true false.
 
 Inductive pc := CMD | L2 | L3 | L4 | P1 | P2 | P3 | P4 | P4U | P5 | P6 | DONE | F1 | FL | F2 | F3.
 
@@ -159,6 +164,10 @@ Definition step (v : variant) (st : state) (t : tid) : state :=
               (acked st ++ t_pend th)
   | DONE => st
   | F1 =>
+      if v_flusher_store v then
+        (* `s.aofdirty.Store(false)` with no lock held, then on to the lock *)
+        mkState (upd T t (set_pc th FL)) (lock st) false (buf st) (file st) (acked st)
+      else
       if v_flusher_swap v then
         (* `if !s.aofdirty.Swap(false) { return }` with no lock held *)
         mkState (upd T t (set_pc th (if dirty st then FL else F1))) (lock st) false (buf st) (file st) (acked st)
@@ -182,7 +191,7 @@ Definition run_from (v : variant) (st : state) (sched : list tid) : state :=
 Definition init_thread (v : variant) (p : prog) : thread :=
   match p with
   | PConn bs => next_batch v false bs
-  | PFlusher => mkThread F1 [] false false [] []
+  | PFlusher => mkThread (if v_flusher_store v then FL else F1) [] false false [] []
   end.
 
 Definition init (v : variant) (progs : list prog) : state :=
@@ -217,6 +226,12 @@ Definition f13b_sched : list tid := [0;0;0;0; 0]%nat.
 (* a flusher that consumes the flag before it holds the lock: B logs, the flusher swaps, B tests the flag *)
 Definition fswap_progs : list prog := [PConn [mkBatch [1%N] false false]; PFlusher].
 Definition fswap_sched : list tid := [0;0;0;0; 1; 0;0]%nat.
+
+(* a flusher that clears the flag unconditionally at the start of every round, before its lock: one
+   (empty) round, B logs while the flusher sleeps, the next round starts (store), B tests the flag *)
+Definition fstore_progs : list prog := [PConn [mkBatch [1%N] false false]; PFlusher].
+Definition fstore_sched : list tid := [1;1;1; 0;0;0;0; 1; 0;0]%nat.
+(*  flusher: FL F2 F3   B: CMD L2 L3 L4   flusher: F1 (store)   B: P1 (false) P6 *)
 
 (* the flag raised by the dispatcher instead of writeAOF: one connection, one write made by a script *)
 Definition fdisp_progs : list prog := [PConn [mkBatch [1%N] false true]].
